@@ -57,6 +57,9 @@ pub struct Case {
     /// the URL's own host is put on the no-proxy list: the request (not the redirect hop) goes direct whatever proxies exist
     #[serde(default)]
     pub no_proxy_self: bool,
+    /// a *subdomain* of the URL's host (domain hosts only) is on the no-proxy list: the URL's own host is not covered by it
+    #[serde(default)]
+    pub no_proxy_child: bool,
 }
 
 pub const METHODS: &[&str] = &["GET", "GET", "OPTIONS", "HEAD", "POST", "DELETE", "TRACE", "PUT"];
@@ -355,7 +358,7 @@ non-trivial = a proxy is involved or the URL has >= 2 of {explicit port, IPv6, f
                                                         0 => None,
                                                         k => Some(ProxySpec { https: *k == 2, host: ph.clone(), port: *pp, creds: pc.clone() }),
                                                     };
-                                                    all.push(Case { url, http_proxy: proxy.clone(), https_proxy: proxy, redirect_to: None, caller_host: false, send_twice: false, method: (all.len() % METHODS.len()) as u8, no_proxy_self: false });
+                                                    all.push(Case { url, http_proxy: proxy.clone(), https_proxy: proxy, redirect_to: None, caller_host: false, send_twice: false, method: (all.len() % METHODS.len()) as u8, no_proxy_self: false, no_proxy_child: all.len() % 3 == 0 });
                                                 }
                                             }
                                         }
@@ -377,9 +380,9 @@ non-trivial = a proxy is involved or the URL has >= 2 of {explicit port, IPv6, f
             prop_oneof![1 => Just(None), 2 => proxy_spec().prop_map(Some)],
             prop_oneof![3 => Just(None), 1 => urlgen::url_spec(true, false).prop_map(Some)],
             prop::bool::weighted(0.2),
-            (prop::bool::weighted(0.25), 0u8..METHODS.len() as u8, prop::bool::weighted(0.15)),
+            (prop::bool::weighted(0.25), 0u8..METHODS.len() as u8, prop::bool::weighted(0.15), prop::bool::weighted(0.2)),
         )
-            .prop_map(|(mut url, http_proxy, https_proxy, redirect_to, caller_host, (send_twice, method, no_proxy_self))| {
+            .prop_map(|(mut url, http_proxy, https_proxy, redirect_to, caller_host, (send_twice, method, no_proxy_self, no_proxy_child))| {
                 let redirect_to = redirect_to.map(|mut u| {
                     u.fragment = None;
                     if u.https && https_proxy.is_some() {
@@ -393,7 +396,7 @@ non-trivial = a proxy is involved or the URL has >= 2 of {explicit port, IPv6, f
                 let v6_tunnel = url.https && https_proxy.is_some() && matches!(url.host, HostSpec::V6(_));
                 let (redirect_to, send_twice) = if v6_tunnel { (None, false) } else { (redirect_to, send_twice) };
                 let _ = &mut url;
-                Case { url, http_proxy, https_proxy, redirect_to, caller_host, send_twice, method, no_proxy_self }
+                Case { url, http_proxy, https_proxy, redirect_to, caller_host, send_twice, method, no_proxy_self, no_proxy_child }
             })
             .boxed()
     }
@@ -419,6 +422,13 @@ non-trivial = a proxy is involved or the URL has >= 2 of {explicit port, IPv6, f
             // the entry is the host as the URL spells it (IPv6 literals bracketed), lower-cased
             b = b.add_no_proxy_host(case.url.host_text());
             ctx.label("own-host-on-no-proxy-list");
+        }
+        if case.no_proxy_child {
+            if let HostSpec::Domain(_) = case.url.host {
+                b = b.add_no_proxy_host(format!("intranet.{}", case.url.host_text()));
+                b = b.add_no_proxy_host(format!("a.b.{}", case.url.host_text()));
+                ctx.label("subdomain-of-own-host-on-no-proxy-list");
+            }
         }
         let url = case.url.render();
         let method = METHODS[case.method as usize % METHODS.len()];
